@@ -927,7 +927,7 @@ pub fn run(args: &Args) {
         }
     }
     // 2. enumerated schedules of fixed programs at every level
-    let per_prog = if args.thorough { 60000 } else { 2500 };
+    let per_prog = if args.thorough { 60000 } else { 700 };
     for (name, progs, bound) in fixed_programs() {
         for level in [3u8, 4, 2, 1, 0] {
             let bound = match (bound, args.thorough) { (Some(b), true) => Some(b + 1), (b, _) => b };
@@ -937,7 +937,7 @@ pub fn run(args: &Args) {
     }
     cx.sum.sample(json!({"kind": "enumerated schedules", "programs": fixed_programs().iter().map(|x| x.0).collect::<Vec<_>>()}));
     // 3. random programs, random schedules
-    let nrand = if args.thorough { 60000 } else { 4000 };
+    let nrand = if args.thorough { 60000 } else { 2500 };
     for k in 0..nrand {
         let mut r = Rng::new(cx.rng.next());
         let level = *r.pick(&[3u8, 3, 3, 4, 4, 2, 1, 0]);
@@ -950,7 +950,7 @@ pub fn run(args: &Args) {
         if k < 3 { cx.sum.sample(json!({"kind": "random", "case": conc_case_json(level, &progs, &o.sched)})); }
     }
     // 4. sequential histories over several managers
-    let nseq = if args.thorough { 40000 } else { 3000 };
+    let nseq = if args.thorough { 40000 } else { 2000 };
     for k in 0..nseq {
         let mut r = Rng::new(cx.rng.next());
         let ops = rand_seq(&mut r);
